@@ -15,7 +15,8 @@ OBLIGATIONS = [
     ob("c05.f.fe_codec", "harness/x25519.c", "hf_fe_codec", ["fe25519_frombytes (fe_51)", "fe25519_tobytes (fe_51)", "fe25519_reduce (fe_51)"],
        "field element decode ignores bit 255 and encode returns the canonical value mod 2^255-19 for every limb vector below 2^54 (incl. values >= p): top bit ignored, non-canonical coordinates reduced",
        replayable=False, bound="values: limbs < 2^54 for the encoder"),
-    ob("c05.f.dispatch", "harness/x25519_api.c", "hf_dispatch", ["crypto_scalarmult_curve25519"], "failure reported exactly when the back end fails or the shared point is all-zero", defs=["-DPART=0"]),
+    ob("c05.f.dispatch", "harness/x25519_api.c", "hf_dispatch", ["crypto_scalarmult_curve25519"], "the back end receives the caller's scalar and point unmodified (distinct buffers, output over the point, output over the scalar); failure reported exactly when the back end fails or the shared point is all-zero", defs=["-DPART=0"]),
+    ob("c05.f.dispatch_base", "harness/x25519_api.c", "hf_dispatch_base", ["crypto_scalarmult_curve25519_base"], "base-point multiplication forwards the caller's scalar (also in place) and returns the back end's result", defs=["-DPART=0"]),
     ob("c05.f.kx_session", "harness/x25519_api.c", "hf_kx_session", ["crypto_kx_client_session_keys", "crypto_kx_server_session_keys"],
        "session keys = BLAKE2b-512(q || client_pk || server_pk) split rx/tx on the client and tx/rx on the server (cross-equal), -1 and nothing derived when X25519 fails", defs=["-DPART=1"]),
     ob("c05.f.kx_keypair", "harness/x25519_api.c", "hf_kx_keypair", ["crypto_kx_seed_keypair", "crypto_kx_keypair"], "seeded key pair = (BLAKE2b-256(seed), base multiple); random key pair draws 32 bytes", props=("C05", "C18"), defs=["-DPART=1"]),
